@@ -124,6 +124,11 @@ func (z *Int) SetFromDecimal(s string) error {
 	if s == "" {
 		return fmt.Errorf("missing digits")
 	}
+	// the magnitude parser accepts a leading '+' on its own; the only sign
+	// allowed here is the one consumed above
+	if s[0] < '0' || s[0] > '9' {
+		return fmt.Errorf("invalid decimal digit %q", s[0])
+	}
 
 	if err := z.mag.SetFromDecimal(s); err != nil {
 		return err
